@@ -2,6 +2,7 @@
 Line-protocol driver for the C03 models (metric block merge + family compaction).
 
   merge <blk> <blk> ...                      -> ok <canonical blk>
+  wr <blk>                                   -> ok <canonical blk read back from the model block writer's output>
   reset                                       -> ok
   flush <metric>=<blk> <metric>=<blk> ...     -> ok L0:<files> L1:<files>
   compact <threshold> <maxFileSize> <k:len,k:len,...|->   -> <skipped|moved|merged|fail> L0:<files> L1:<files>
@@ -17,6 +18,7 @@ iteration order; the harness checks membership on the implementation side).
 -/
 import LinVerif.Util.Proto
 import LinVerif.Model.Compact
+import LinVerif.Model.BlockWriter
 import LinVerif.Generated.C03
 
 namespace LinVerif.Driver.C03
@@ -95,6 +97,19 @@ def showBlock (b : Blk) : String :=
     s!"{s}{"".intercalate fes}")
   s!"{showFields b.fields}#{b.start}_{b.stop}#{"|".intercalate series}"
 
+/-- canonical text of what the model reader finds in a block the model writer produced -/
+def showEnc (e : BlockWriter.EncBlock Int) : String :=
+  let slots := List.range' e.start (e.stop + 1 - e.start)
+  let series := e.ids.map (fun s =>
+    let fes := e.fields.filterMap (fun (f, _) =>
+      let vs := slots.filterMap (fun t =>
+        (match BlockWriter.readField e s f with
+          | none => none
+          | some vals => lookup vals t).map (fun v => s!"{t}={v}"))
+      if vs.isEmpty then none else some s!"/{f}@{",".intercalate vs}")
+    s!"{s}{"".intercalate fes}")
+  s!"{showFields e.fields}#{e.start}_{e.stop}#{"|".intercalate series}"
+
 def showFiles (fs : List (File Int)) : String :=
   if fs.isEmpty then "-" else
   ";".intercalate (sortStr (fs.map (fun f => ",".intercalate (f.entries.map (fun e => toString e.1)))))
@@ -135,6 +150,13 @@ def step (st : Family Int) (ws : List String) : Family Int × String :=
       if mergeFails tol (b :: bs) then (st, "err merge")
       else (st, "ok " ++ showBlock (mergeBlocks tol aggInt (b :: bs)))
     | _ => (st, "bad-op")
+  | ["wr", w] =>
+    match parseBlock w with
+    | some b =>
+      match BlockWriter.writeBlock b with
+      | some e => (st, "ok " ++ showEnc e)
+      | none => (st, "err empty")
+    | none => (st, "bad-op")
   | ["reset"] => (Family.empty, "ok")
   | "flush" :: rest =>
     match rest.mapM parseEntry with
